@@ -7,6 +7,10 @@ def T(qcases, tcases, qbudget=240, tbudget=1500, workers=16):
             "thorough": dict(cases=tcases, budget_s=tbudget, workers=workers)}
 
 PROPS = {
+    "C12": dict(sources=["props/C12.cpp"], jls=True, tiers=T(300, 4000),
+                assumptions=["UTC sample ids are reported relative to the first sample id; anchors lie within [first sample - 1 h, last sample] (what the reader documents loading)",
+                             "times advance by at least one tick per sample (strictly increasing), spans stay below 2^50 ticks so that the 1-tick bound is meaningful for double arithmetic",
+                             "tolerance: 1 tick + 1e-14 * distance from the first anchor"]),
     "C11": dict(sources=["props/C11.cpp"], jls=True, tiers=T(300, 4000),
                 assumptions=["annotation timestamps of FSR signals are reported relative to the first sample id (reader.h)",
                              "string/json payloads are returned with their terminating NUL counted in data_size"]),
@@ -39,6 +43,10 @@ PROPS = {
 HOOK_COMMITS = ["6203c3e4032b5e35344eee56bc8020982a6abdeb"]
 
 MANIFEST_TEXT = {
+    "C12": dict(
+        technique="model-based property testing: generated anchor tables x generated queries against a list model and exact rational interpolation (__int128)",
+        level_text="Anchor tables with 0,1,2,3, decimate+-1, decimate^2+1, 999/1000/1001 and 2000 entries (the map's initial capacity and its first growth), rates 1 Hz..1 GHz, drift and irregular spacing, first-sample offsets; jls_rd_utc from many start ids must deliver exactly the pairs at or after the start; id->time is exact at anchors, non-decreasing, within 1 tick of the exact linear inter/extrapolation, and time->id returns within 1 sample.",
+        level_note="Trusted: the __int128/long double reference. Spans are bounded (see assumptions)."),
     "C11": dict(
         technique="model-based property testing: generated timestamp multisets (runs of equal timestamps aimed at index-chunk edges) x all seek points against a list model",
         level_text="Generated annotation sequences for the global signal 0 and FSR signals with zero, large and negative first sample ids, decimate factors 2/3/10/default so that 1-3 index levels exist; full iteration compared field by field; for every distinct timestamp, timestamp-1, before-first and after-last the delivered list must be a contiguous tail containing every item >= t and at most one earlier item; stop requests end the iteration.",
